@@ -104,10 +104,31 @@ def classify(h):
     return "unknown", None, raw
 
 
+def _known_sigs():
+    from .common import load_known
+
+    return {k["signature"] for k in load_known() if k.get("property") == PROP and k.get("status") == "open"}
+
+
+def attribute(kind, spec, suffix=""):
+    """Signature of a failing configuration: kind:<option=value,...>[:<exception type>].  A two-option
+    configuration that fails exactly like one of its options alone (a listed finding) is attributed to
+    that option; any other failing combination keeps its own signature."""
+    known = _known_sigs()
+    full = kind + ":" + ",".join(spec["changes"]) + suffix
+    if full in known:
+        return full
+    for ch in spec["changes"]:
+        single = kind + ":" + ch + suffix
+        if single in known:
+            return single
+    return full
+
+
 def late_signature(spec, exc):
     """Identify a late failure by the option value that triggers it and the exception type."""
     what = (exc or {}).get("what", "")
-    return "late_failure:" + ",".join(spec["changes"]) + ":" + what.split(":")[0]
+    return attribute("late_failure", spec, ":" + what.split(":")[0])
 
 
 def main(tier: str) -> int:
@@ -160,7 +181,7 @@ def main(tier: str) -> int:
                 v.violation(late_signature(spec, exc), f"{label}: fails after sampling started: {exc.get('what')} "
                             f"(after {exc.get('evals_here')} likelihood evaluations; {exc.get('tb', [''])[-1]})", replay)
             elif out == "no_termination":
-                v.violation("no_termination:" + ",".join(spec["changes"]),
+                v.violation(attribute("no_termination", spec),
                             f"{label}: did not terminate within the wall-clock bound", replay)
             else:
                 v.mismatch(f"{label}: outcome could not be classified (codes {h['codes']})")
